@@ -35,12 +35,21 @@ def parse_cex(message, fnname):
         return None
     src = m.group(1)
     try:
-        node = ast.parse('f(' + src + ')', mode='eval').body
-        args = [ast.literal_eval(a) for a in node.args]
-        kwargs = {k.arg: ast.literal_eval(k.value) for k in node.keywords}
-        return {'args': args, 'kwargs': kwargs}
+        # CrossHair prints shared sub-objects with walrus aliases: f([v1:=(5, 0), v1], 2)
+        a, k = eval('(lambda *a, **k: (a, k))(' + src + ')', {'__builtins__': {}}, {})
+        return {'args': _jsonable(list(a)), 'kwargs': _jsonable(dict(k))}
     except Exception:
         return None
+
+
+def _jsonable(x):
+    if isinstance(x, (list, tuple)):
+        return [_jsonable(i) for i in x]
+    if isinstance(x, dict):
+        return {str(k): _jsonable(v) for k, v in x.items()}
+    if isinstance(x, (str, int, float, bool)) or x is None:
+        return x
+    return repr(x)
 
 
 def check(modname, fnname, timeout):
